@@ -117,7 +117,7 @@ def run(ctx):
         ea, alias = effects(ap, plan=pa)
         er, _ = effects(rv, plan=pr)
         def guards(fn, n, plan):
-            return tuple(sorted(A.unparse(p.test).replace(plan + ".", "PLAN.") for p in A.parents(n) if isinstance(p, ast.If) and p is not fn.node and not on_failure_path(fn, p.body[0]) and any(A.contains_node(s_, n) for s_ in p.body)))
+            return tuple(sorted(t.replace(plan + ".", "PLAN.") for t in M.path_conditions(n, fn.node)))
         ga = {(INVERSE[k], tuple(x.replace(pa + ".", pr + ".") for x in a)): guards(ap, n, pa) for k, a, n in ea if k in INVERSE and not on_failure_path(ap, n)}
         gr = {(k, a): guards(rv, n, pr) for k, a, n in er if k in INVERSE}
         for key in sorted(set(ga) & set(gr)):
@@ -259,7 +259,7 @@ def run(ctx):
         ef, _ = effects(f, plan=f.params()[1])
         order = [k for k, a, n in ef if k in (first, second)]
         lim = [n for k, a, n in ef if k.startswith("lim")]
-        guarded = bool(lim) and any(isinstance(p, ast.If) and A.unparse(p.test) == f"self.blocker not in {f.params()[1]}.blockers_refcnt" and any(A.contains_node(s, lim[0]) for s in p.body) for p in A.parents(lim[0]))
+        guarded = bool(lim) and f"self.blocker not in {f.params()[1]}.blockers_refcnt" in M.path_conditions(lim[0], f.node)
         ctx.check("R4", f, order == [first, second] and guarded, "limiter-guard", f"{q}: `{first}` then `{second}`, the limiter change guarded by `blocker not in refcnt`",
                   f"{q}: effect order {order}, guarded={guarded}: the limiter is (un)registered on the wrong reference count", node=f.node)
     # sibling rule: an insertion made with force=self.force only failed when it was not forced
